@@ -307,16 +307,34 @@ func runC21(c *Ctx) {
 		c.Check("C21.R1", ci, "unordered search only for an unordered channel", GuardedBy(ci, func(g Guard) bool { return !g.Pol && loadsField(g.Cond, "mapChannel", "ordered") }), strings.Join(GuardStrings(ci), " && "))
 	}
 	// the comparator's direction is the request's direction
+	// (the direction variable is found through the comparator closure's bool binding, not by name)
 	ascStores := 0
 	EachInstr(gs, func(in ssa.Instruction) {
-		if st, ok := in.(*ssa.Store); ok {
-			if al, ok := st.Addr.(*ssa.Alloc); ok && al.Comment == "wantAsc" {
-				ascStores++
-				c.Check("C21.R1", st, "comparator direction is the request's Asc", strings.HasSuffix(D(st.Val), "MapReadStateOptions.Asc"), D(st.Val))
+		mc, ok := in.(*ssa.MakeClosure)
+		if !ok || mc.Fn != less {
+			return
+		}
+		for _, b := range mc.Bindings {
+			al, isAlloc := b.(*ssa.Alloc)
+			if !isAlloc {
+				if bb, isB := b.Type().Underlying().(*types.Basic); isB && bb.Kind() == types.Bool {
+					ascStores++
+					c.Check("C21.R1", in, "comparator direction is the request's Asc", strings.HasSuffix(D(b), "MapReadStateOptions.Asc"), D(b))
+				}
+				continue
+			}
+			if bb, isB := deref(al.Type()).Underlying().(*types.Basic); !isB || bb.Kind() != types.Bool {
+				continue
+			}
+			for _, r := range *al.Referrers() {
+				if st, ok := r.(*ssa.Store); ok && st.Addr == al {
+					ascStores++
+					c.Check("C21.R1", st, "comparator direction is the request's Asc", strings.HasSuffix(D(st.Val), "MapReadStateOptions.Asc"), D(st.Val))
+				}
 			}
 		}
 	})
-	c.Anchor("C21.R1", "wantAsc initialisation", ascStores == 1)
+	c.Anchor("C21.R1", "direction captured by the comparator", ascStores >= 1)
 
 	// ---- R2 next cursor
 	mk := w.Func("centrifuge", "MakeOrderedCursor")
@@ -360,15 +378,25 @@ func runC21(c *Ctx) {
 	}
 	// unordered cursor = last key: the Cursor field of the result
 	okU := false
-	EachInstr(gs, func(in ssa.Instruction) {
-		if p, ok := in.(*ssa.Phi); ok && p.Comment == "cursor" {
+	var walkCursor func(v ssa.Value, depth int)
+	seenCur := map[ssa.Value]bool{}
+	walkCursor = func(v ssa.Value, depth int) {
+		if v == nil || seenCur[v] || depth > 6 {
+			return
+		}
+		seenCur[v] = true
+		if lastOfPage(v) {
+			okU = true
+		}
+		if p, ok := v.(*ssa.Phi); ok {
 			for _, e := range p.Edges {
-				if lastOfPage(e) {
-					okU = true
-				}
+				walkCursor(e, depth+1)
 			}
 		}
-	})
+	}
+	for _, st := range storesToField(gs, false, "MapStateResult", "Cursor") {
+		walkCursor(st.Val, 0)
+	}
 	c.CheckAt("C21.R2", "unordered cursor is the last key of the page", w.Pos(gs.Pos()), okU, "")
 
 	// ---- R3 progress and contiguity
